@@ -198,8 +198,9 @@ func c13FInts(fs []float64) []int {
 
 // the special values of the brief, and a few more: both zeros, ones, the decimal fractions that are not binary
 // fractions, the largest / smallest magnitudes, infinities, NaN, the first integers float64 cannot tell apart
-var c13FSpecial = []float64{math.Copysign(0, -1), 0, 1, -1, 0.1, 0.2, 0.3, 1e308, -1e308, 5e-324, math.Inf(1), math.Inf(-1),
-	math.NaN(), 1 << 53, 1<<53 + 2, 0.5, 1.5, -5e-324, math.MaxFloat64, 0x1p-1022}
+// (NaN comes third: every "first k values" sub-alphabet below must contain it)
+var c13FSpecial = []float64{math.Copysign(0, -1), 0, math.NaN(), 1, -1, 0.1, 0.2, 0.3, 1e308, -1e308, 5e-324, math.Inf(1), math.Inf(-1),
+	1 << 53, 1<<53 + 2, 0.5, 1.5, -5e-324, math.MaxFloat64, 0x1p-1022}
 
 func genC13Float(g *Gen, emit func(stream string, nt bool, w *W)) {
 	sp := c13FSpecial
@@ -255,7 +256,7 @@ func genC13Float(g *Gen, emit func(stream string, nt bool, w *W)) {
 	})
 	// Abs, Compare/Less/Equal over all singles / pairs of the special values; Clamp/InRange over all triples of
 	// the first 12 (thorough: all 20)
-	nc := g.Pick(12, 20)
+	nc := g.Pick(13, 20)
 	for ia, a := range sp {
 		emit("float", true, (&W{}).Int(59).I64(c13FBits(a)))
 		emit("float", true, (&W{}).Int(59).I64(c13FBits(-a)))
